@@ -11,6 +11,8 @@ namespace Gemato.L1
 inductive MContent
   | text (t : Str)      -- the decompressed, decoded text
   | corrupt             -- not valid data for the codec its suffix names
+  /-- the codec (or the UTF-8 decoder) fails part-way: the text delivered, line by line, before it does -/
+  | broken (pre : Str)
 deriving DecidableEq, Repr, Inhabited
 
 structure FileMeta where
@@ -51,6 +53,7 @@ inductive Err
   | syntax                                -- ManifestSyntaxError (loading a Manifest)
   | unsigned                              -- ManifestUnsignedData
   | unsupportedHash                       -- UnsupportedHash
+  | signing                               -- OpenPGPSigningFailure
   | os (e : Errno)                        -- a genuine OSError
   | compress                              -- invalid compressed data
   | internal (k : IntKind)                -- AttributeError, KeyError, IndexError, AssertionError …
